@@ -64,6 +64,14 @@ Theorem signal_frame_unique : forall ss a b,
 Proof. exact signal_frame_unique_lemma. Qed.
 Print Assumptions signal_frame_unique.
 
+(* -- binary CPU: records are independent.  Given the document, every sample's documented view is ONE
+      function of its own record, and equal stacks get equal result stacks: a record converts the same
+      way whether or not an equal record precedes it (no state may leak between records) -- *)
+Theorem cpu_equal_records_equal_stacks : forall d, exists h : Z * list Z -> sview,
+  cpu_view d = map h (pd_samples d) /\ (forall s t, snd s = snd t -> sv_addrs (h s) = sv_addrs (h t)).
+Proof. exact cpu_view_uniform_lemma. Qed.
+Print Assumptions cpu_equal_records_equal_stacks.
+
 (* -- binary CPU: a header written with word size / byte order k is rejected by every getter probed
       before k and accepted by k's own, with the period as written (parser model, all inputs) -- *)
 Theorem cpu_word_probe_unique : forall k p rest, 0 <= k <= 3 -> 0 < p -> word_ok k p ->
